@@ -54,6 +54,7 @@ import (
 
 const header = `From Coq Require Import String NArith ZArith List. Import ListNotations.
 From V Require Import Base.Bytes Sig.SigModel Sig.SigCase.
+From Coq Require Import Uint63.
 Local Open Scope N_scope.
 `
 
@@ -663,7 +664,14 @@ type emitter struct {
 	w   *lib.Writer
 	rnd *mrand.Rand
 	ks  *keySet
+	// histories (history.go)
+	hplans []histPlan
+	hnext  int
+	hshard int
+	hrnd   *mrand.Rand
 }
+
+const shardSize = 150
 
 func hx(b []byte) string {
 	if len(b) > 256 {
@@ -731,6 +739,7 @@ func randMsg(rnd *mrand.Rand) []byte {
 func (e *emitter) verifyStream() {
 	thorough := lib.Tier() == "thorough"
 	for ki, k := range e.ks.signing {
+		e.historyTick(false)
 		// one PRNG per key, seeded from the master: the scenario of a case id does not depend on
 		// how many draws earlier cases made with run-time random signature lengths
 		rnd := mrand.New(mrand.NewSource(e.rnd.Int63()))
@@ -1134,6 +1143,7 @@ func (e *emitter) algIDStream() {
 		}
 	}
 	for _, kn := range names {
+		e.historyTick(false)
 		k := e.ks.byName[kn]
 		a := sigAlgOf[k.kind]
 		rnd := mrand.New(mrand.NewSource(e.rnd.Int63()))
@@ -2189,16 +2199,22 @@ func main() {
 	flag.Parse()
 	log.SetOutput(io.Discard) // the code under test logs "Garbage following signature" / WARNING lines
 	rnd := lib.Rand()
-	e := &emitter{w: lib.NewWriter(header, 150), rnd: rnd, ks: makeKeys()}
+	e := &emitter{w: lib.NewWriter(header, shardSize), rnd: rnd, ks: makeKeys()}
 	defer e.w.Guard()
+	e.historyTick(false)
 	e.newVerifierStream()
 	e.derStream()
+	e.historyTick(false)
 	e.verifyStream()
 	e.sctStream()
+	e.historyTick(false)
 	e.sthStream()
 	e.utilStream()
+	e.historyTick(false)
 	e.jsonStream()
-	e.algIDStream() // last: the case ids of the streams above do not move
+	e.historyTick(false)
+	e.algIDStream()
+	e.historyTick(true)
 	e.w.Close()
 	fmt.Printf("c05: %d cases\n", e.w.Len())
 }
